@@ -552,6 +552,9 @@ class Evaluator(abc.ABC):
                         self.jobs_done.append(job)
                         self.job_id_gathered.append(job.id)
 
+                # The remaining tasks were cancelled and belong to the loop being closed
+                self._tasks_running = []
+
         self._tasks_done = []
         self._tasks_pending = []
 
